@@ -112,7 +112,7 @@ CHECKS["C04"] = {
 CHECKS["C06"] = {
     "engine": "clib/hasher_bfs", "category": "model_checking", "design_ref": "DESIGN.md 3/C06",
     "technique": "explicit-state BFS over the real C blake3_hasher (three C build flavours x every dispatch mask), merged on the live bytes of the public struct; spec oracle in every state",
-    "text": "The C library is built from /repo/c in three flavours (Unix assembly, C intrinsics, portable-only) and explored under every dispatch mask the CPU supports, set through upstream's own BLAKE3_TESTING seam g_cpu_features. From each of the four initialisers (five mode instances) a breadth-first search applies update over the fine and coarse alphabets and reset from every state, merging on the live bytes of the struct; in every state finalize/finalize_seek at 16 (seek, out_len) probes - out_len 0, partial first/last blocks, block counter 2^32 across all 16 xof_many lanes, the end of the 2^64-1 stream - are compared with the spec stream with canaries around the output, queries must leave every byte of the hasher unchanged, zero-length updates (NULL, dangling, valid pointer) must be no-ops, reset must equal a fresh hasher and the two derive-key initialisers must agree.",
+    "text": "The C library is built from /repo/c in three flavours (Unix assembly, C intrinsics, portable-only) and explored under every dispatch mask the CPU supports, set through upstream's own BLAKE3_TESTING seam g_cpu_features. From each of the four initialisers (five mode instances) a breadth-first search applies update over the fine and coarse alphabets and reset from every state, merging on the live bytes of the struct; in every state finalize/finalize_seek at 22 (seek, out_len) probes - out_len 0, partial first/last blocks, block counter 2^32 across all 16 xof_many lanes, the end of the 2^64-1 stream - are compared with the spec stream with canaries around the output, queries must leave every byte of the hasher unchanged, zero-length updates (NULL, dangling, valid pointer) must be no-ops, reset must equal a fresh hasher and the two derive-key initialisers must agree.",
     "note": "Trusted: b3spec; the Rust mirror of the struct layout (checked against sizeof/offsetof at start). Equality with the Rust crate is by both equalling the spec on the same case space. Bounds as C02.",
 }
 
